@@ -1086,7 +1086,7 @@ def c13_stub_run(w):
     class Reader(MeterReaderBase):
         def __init__(self, r, calls, clock):
             self.r, self.calls, self.clock = r, calls, clock
-        is_in_hunt_mode = property(lambda s: True)
+        is_in_hunt_mode = property(lambda s: bool(w["hunt"][s.r][s.clock[0]]) if "hunt" in w else True)
 
         def read(self, data):
             c = self.clock[0]             # plan[r][c] = what reader r makes of the c-th chunk (a candidate that is not fed a chunk loses it)
